@@ -401,6 +401,30 @@ Theorem C02_fixed_point_result_below_prefix :
 Proof. exact (@fixed_point_result_below_prefix). Qed.
 Print Assumptions C02_fixed_point_result_below_prefix.
 
+(** Bool: the Kleene chain is stationary after at most N = number of Boolean cells steps ... *)
+Theorem C02_bool_chain_stabilises :
+  forall G (w : env (R:=bool)),
+    exists k, k <= length (flat_map (fun X => map (pair X) (all_assts (lshape G X))) (nonterminals G))
+              /\ env_eq_on G (Zk bool_ops G w k) (Zk bool_ops G w (S k)).
+Proof. exact bool_chain_stabilises. Qed.
+Print Assumptions C02_bool_chain_stabilises.
+
+(** ... so with an exact stopping test and kmax >= N, fixed_point's loop does not warn and
+    returns the least fixed point (DESIGN C02_bool_exact) *)
+Theorem C02_bool_fixed_point_exact :
+  forall G (w : env (R:=bool)), wf_grammar G = true ->
+  forall (close : env (R:=bool) -> env (R:=bool) -> bool) kmax,
+    (forall x y, close x y = true <-> env_eq_on G x y) ->
+    length (flat_map (fun X => map (pair X) (all_assts (lshape G X))) (nonterminals G)) <= kmax ->
+    exists y0 y1 k,
+      fixed_point_loop (step bool_ops G w) close kmax (zero_env bool_ops) = Some (y0, y1, false)
+      /\ k <= length (flat_map (fun X => map (pair X) (all_assts (lshape G X))) (nonterminals G))
+      /\ y0 = Zk bool_ops G w k
+      /\ env_eq_on G (step bool_ops G w y0) y0
+      /\ (forall v : env (R:=bool), env_le_on bool_ops G (step bool_ops G w v) v -> env_le_on bool_ops G y0 v).
+Proof. exact bool_fixed_point_exact. Qed.
+Print Assumptions C02_bool_fixed_point_exact.
+
 (** verdict 0 of the Boolean check on a run whose values are judged: the implementation
     returned, for every nonterminal and cell, exactly the least fixed point *)
 Theorem C02_fp_check_bool_sound :
